@@ -319,12 +319,14 @@ func (fs *FS) enter(h *Handle, c *Call) *Fault {
 	perturb := fs.Perturb
 	stepper := fs.stepper
 	fs.mu.Unlock()
-	fs.checkFenced(h, c)
 	if stepper != nil {
 		sc := &StepCall{C: c, Go: make(chan struct{})}
 		stepper <- sc
 		<-sc.Go
 	}
+	// (judged when the call goes ahead: while it is stopped here the entry can only
+	// disappear if the server let the removal in beside it)
+	fs.checkFenced(h, c)
 	for _, g := range hold {
 		select {
 		case g.Entered <- c:
